@@ -11,3 +11,4 @@ register_simp_attr rs_conditions
 register_simp_attr rs_tracker
 register_simp_attr rs_actiondata
 register_simp_attr rs_modifiers
+register_simp_attr rs_refs
